@@ -250,13 +250,21 @@ func checkCase(c *core.Ctx, cs Case) {
 	if !ok {
 		return
 	}
+	// the packages this run has to process: the entrypoints and, with All, the module packages they import
+	// (r imports p; s imports q and r) - known from the module model, not from who happened to call back
+	localDeps := map[string][]string{"r": {"p"}, "s": {"q", "r", "p"}}
 	processed := map[string]bool{}
-	for _, e := range o.Log {
-		processed[strings.TrimPrefix(e.Pkg, modPath+"/")] = true
-	}
 	for _, e := range cs.Entry {
-		if !processed[e] {
-			c.Fail("", cs, "entry package %s was not processed", e)
+		processed[e] = true
+		if cs.All {
+			for _, d := range localDeps[e] {
+				processed[d] = true
+			}
+		}
+	}
+	for _, e := range o.Log {
+		if p := strings.TrimPrefix(e.Pkg, modPath+"/"); !processed[p] {
+			c.Fail("", cs, "a generator was invoked for package %s, which this run does not have to process", p)
 		}
 	}
 	var ps []string
